@@ -52,6 +52,22 @@ Proof.
   intros sid sc Hge Hn. destruct (b_new_sec _ _ _ B sid sc Hge Hn) as [C|[k [n [o [[] _]]]]]. exact C.
 Qed.
 
+Theorem Bal_small_released w0 L w :
+  Bal w0 L w -> (List.length L <= 1)%nat ->
+  (forall sid, (sid < List.length (w_secrets w0))%nat -> nth_error (w_secrets w) sid = nth_error (w_secrets w0) sid) /\
+  (exists leak : list nat, (List.length leak <= 1)%nat /\
+     forall sid sc, (List.length (w_secrets w0) <= sid)%nat -> nth_error (w_secrets w) sid = Some sc -> s_closed sc = true \/ In sid leak) /\
+  (forall k, (k < List.length (w_kobjs w0))%nat -> nth_error (w_kobjs w) k = nth_error (w_kobjs w0) k).
+Proof.
+  intros B Le. split; [exact (b_old_sec _ _ _ B)|]. split; [|exact (b_old_obj _ _ _ B)].
+  destruct L as [|[k n] [|? ?]]; [| |cbn in Le; lia].
+  - exists []. split; [cbn; lia|]. intros sid sc Hge Hn. destruct (b_new_sec _ _ _ B sid sc Hge Hn) as [C|[k [n [o [[] _]]]]]. left. exact C.
+  - destruct (b_own _ _ _ B k n (or_introl eq_refl)) as [_ [o [sc0 [Ho _]]]].
+    exists [ko_secret o]. split; [cbn; lia|]. intros sid sc Hge Hn.
+    destruct (b_new_sec _ _ _ B sid sc Hge Hn) as [C|[k' [n' [o' [[Hin|[]] [Ho' Hs]]]]]]; [left; exact C|].
+    inversion Hin; subst k' n'. rewrite Ho in Ho'. inversion Ho'; subst o'. right. left. exact Hs.
+Qed.
+
 Lemma Bal_perm w0 O O' w : Permutation.Permutation O O' -> Bal w0 O w -> Bal w0 O' w.
 Proof.
   intros P B. destruct B. constructor; try assumption.
@@ -65,62 +81,83 @@ Qed.
 Lemma own_lt w0 O w k n : Bal w0 O w -> In (k, n) O -> (k < List.length (w_kobjs w))%nat.
 Proof. intros B Hin. destruct (b_own _ _ _ B k n Hin) as [_ [o [sc [Ho _]]]]. apply nth_error_Some. congruence. Qed.
 
-(* allocation of a key object for fresh material *)
+(* allocation of a key object for fresh material: the shape of the world afterwards is all that matters *)
+Lemma Bal_alloc w0 O w1 w2 mat c r :
+  Bal w0 O w1 ->
+  w_secrets w2 = w_secrets w1 ++ [{| s_mat := mat; s_closed := false |}] ->
+  w_kobjs w2 = w_kobjs w1 ++ [{| ko_created := c; ko_secret := List.length (w_secrets w1); ko_revoked := r; ko_once := false; ko_refs := 0 |}] ->
+  w_caches w2 = w_caches w1 ->
+  Bal w0 ((List.length (w_kobjs w1), 0) :: O) w2 /\ created_of w2 (List.length (w_kobjs w1)) c.
+Proof.
+  intros B1 E1 E2 E3.
+  set (S := w_secrets w1) in *. set (K := w_kobjs w1) in *.
+  set (sc := {| s_mat := mat; s_closed := false |}) in *.
+  set (o := {| ko_created := c; ko_secret := List.length S; ko_revoked := r; ko_once := false; ko_refs := 0 |}) in *.
+  destruct B1 as [OS OO NS OW ND INJ CA [L1 L2] AL]. fold S K in OS, OO, NS, OW, INJ, L1, L2, AL.
+  split.
+  + constructor; rewrite ?E1, ?E2, ?E3.
+    * intros sid Hlt. rewrite nth_error_app1 by lia. exact (OS sid Hlt).
+    * intros k Hlt. rewrite nth_error_app1 by lia. exact (OO k Hlt).
+    * intros sid sc0 Hge Hn. destruct (lt_dec sid (List.length S)) as [Lt|Ge].
+      -- rewrite nth_error_app1 in Hn by exact Lt. destruct (NS sid sc0 Hge Hn) as [C|[k [n [o0 [Hin [Ho Hs]]]]]]; [left; exact C|].
+         right. exists k, n, o0. split; [right; exact Hin|]. split; [rewrite nth_error_app1; [exact Ho | apply nth_error_Some; congruence] | exact Hs].
+      -- right. assert (sid = List.length S).
+         { assert (sid < List.length (S ++ [sc]))%nat by (apply nth_error_Some; congruence). rewrite app_length in H. cbn in H. lia. }
+         subst sid. exists (List.length K), 0, o. split; [left; reflexivity|]. split; [|reflexivity].
+         rewrite nth_error_app2 by lia. rewrite Nat.sub_diag. reflexivity.
+    * intros k n [Hin|Hin].
+      -- inversion Hin; subst k n. split; [exact L2|]. exists o, sc. rewrite nth_error_app2 by lia. rewrite Nat.sub_diag. cbn [nth_error o ko_refs ko_once ko_secret].
+         repeat split; try reflexivity; [exact L1|]. rewrite nth_error_app2 by lia. rewrite Nat.sub_diag. reflexivity.
+      -- destruct (OW k n Hin) as [Hge [o0 [sc0 [Ho [Hr [Hon [Hs [Hsc Hcl]]]]]]]]. split; [exact Hge|]. exists o0, sc0.
+         split; [rewrite nth_error_app1; [exact Ho | apply nth_error_Some; congruence]|]. repeat split; try assumption.
+         rewrite nth_error_app1; [exact Hsc | apply nth_error_Some; congruence].
+    * cbn [map fst]. constructor; [|exact ND]. intro Hin. apply in_map_iff in Hin as [[k n] [Ek Hin]]. cbn in Ek. subst k.
+      destruct (OW _ n Hin) as [_ [o0 [sc0 [Ho _]]]]. assert (List.length K < List.length K)%nat by (apply nth_error_Some; congruence). lia.
+    * intros k n k' n' o1 o2 H1 H2 Ho1 Ho2 Es.
+      assert (Old : forall k0 n0 o0, In (k0, n0) O -> nth_error (K ++ [o]) k0 = Some o0 -> nth_error K k0 = Some o0 /\ (ko_secret o0 < List.length S)%nat).
+      { intros k0 n0 o0 Hin Hn. destruct (OW k0 n0 Hin) as [Hge [o3 [sc3 [Ho3 [_ [_ [_ [Hsc3 _]]]]]]]].
+        rewrite nth_error_app1 in Hn by (apply nth_error_Some; congruence). split; [exact Hn|]. rewrite Ho3 in Hn. inversion Hn; subst o3.
+        apply nth_error_Some. congruence. }
+      assert (New : forall o0, nth_error (K ++ [o]) (List.length K) = Some o0 -> ko_secret o0 = List.length S).
+      { intros o0 Hn. rewrite nth_error_app2 in Hn by lia. rewrite Nat.sub_diag in Hn. inversion Hn. reflexivity. }
+      destruct H1 as [H1|H1], H2 as [H2|H2].
+      -- inversion H1; inversion H2; congruence.
+      -- inversion H1; subst k n. pose proof (New o1 Ho1). destruct (Old k' n' o2 H2 Ho2) as [_ X]. lia.
+      -- inversion H2; subst k' n'. pose proof (New o2 Ho2). destruct (Old k n o1 H1 Ho1) as [_ X]. lia.
+      -- destruct (Old k n o1 H1 Ho1) as [X1 _]. destruct (Old k' n' o2 H2 Ho2) as [X2 _]. exact (INJ k n k' n' o1 o2 H1 H2 X1 X2 Es).
+    * exact CA.
+    * rewrite !app_length. cbn. split; lia.
+    * intros k o0 Hn Hge. rewrite app_length. cbn. destruct (lt_dec k (List.length K)) as [Lt|Ge].
+      -- rewrite nth_error_app1 in Hn by exact Lt. pose proof (AL k o0 Hn Hge). lia.
+      -- assert (k = List.length K).
+         { assert (k < List.length (K ++ [o]))%nat by (apply nth_error_Some; congruence). rewrite app_length in H. cbn in H. lia. }
+         subst k. rewrite nth_error_app2 in Hn by lia. rewrite Nat.sub_diag in Hn. inversion Hn; subst o0. cbn. lia.
+  + exists o. rewrite E2. split; [|reflexivity]. rewrite nth_error_app2 by lia. rewrite Nat.sub_diag. reflexivity.
+Qed.
+
+Lemma next_call_cases w : exists f, next_call w = (inr f, with_calls (S (w_calls w)) w).
+Proof. unfold next_call. destruct (fault_at (w_calls w) (w_faults w)); eexists; reflexivity. Qed.
+
 Lemma new_crypto_key_B w0 O c r m :
   hoare (Bal w0 O) (new_crypto_key c r m) (fun k w => Bal w0 ((k, 0) :: O) w /\ created_of w k c) (Bal w0 O).
 Proof.
-  intros w B. unfold new_crypto_key, bind, secret_new. unfold bind at 1.
-  destruct (next_call w) as [[e|[f|]] w1] eqn:En.
-  - (* next_call never fails *) unfold next_call in En. destruct (fault_at (w_calls w) (w_faults w)); discriminate En.
-  - assert (S1 : same_live w w1) by (pose proof (qL_next_call w) as X; rewrite En in X; exact X).
-    unfold secret_count, gets, bind, emit, upd, fail. cbn. eapply Bal_same; [|exact B].
-    destruct S1 as [A1 [A2 A3]]. repeat split; cbn; assumption.
-  - assert (S1 : same_live w w1) by (pose proof (qL_next_call w) as X; rewrite En in X; exact X).
-    pose proof (Bal_same _ _ _ _ S1 B) as B1. clear B En. destruct S1 as [_ _].
-    unfold secret_alloc, bind, emit, upd, ret, kobj_alloc. cbn.
-    set (S := w_secrets w1). set (K := w_kobjs w1).
-    set (sc := {| s_mat := m; s_closed := false |}).
-    set (o := {| ko_created := c; ko_secret := List.length S; ko_revoked := r; ko_once := false; ko_refs := 0 |}).
-    destruct B1 as [OS OO NS OW ND INJ CA [L1 L2] AL]. fold S K in OS, OO, NS, OW, INJ, L1, L2, AL.
-    split.
-    + constructor; wsimpl; fold S K.
-      * intros sid Hlt. rewrite nth_error_app1 by lia. exact (OS sid Hlt).
-      * intros k Hlt. rewrite nth_error_app1 by lia. exact (OO k Hlt).
-      * intros sid sc0 Hge Hn. destruct (lt_dec sid (List.length S)) as [Lt|Ge].
-        -- rewrite nth_error_app1 in Hn by exact Lt. destruct (NS sid sc0 Hge Hn) as [C|[k [n [o0 [Hin [Ho Hs]]]]]]; [left; exact C|].
-           right. exists k, n, o0. split; [right; exact Hin|]. split; [rewrite nth_error_app1; [exact Ho | apply nth_error_Some; congruence] | exact Hs].
-        -- right. assert (sid = List.length S).
-           { assert (sid < List.length (S ++ [sc]))%nat by (apply nth_error_Some; congruence). rewrite app_length in H. cbn in H. lia. }
-           subst sid. exists (List.length K), 0, o. split; [left; reflexivity|]. split; [|reflexivity].
-           rewrite nth_error_app2 by lia. rewrite Nat.sub_diag. reflexivity.
-      * intros k n [Hin|Hin].
-        -- inversion Hin; subst k n. split; [exact L2|]. exists o, sc. rewrite nth_error_app2 by lia. rewrite Nat.sub_diag. cbn [nth_error o ko_refs ko_once ko_secret].
-           repeat split; try reflexivity; [exact L1|]. rewrite nth_error_app2 by lia. rewrite Nat.sub_diag. reflexivity.
-        -- destruct (OW k n Hin) as [Hge [o0 [sc0 [Ho [Hr [Hon [Hs [Hsc Hcl]]]]]]]]. split; [exact Hge|]. exists o0, sc0.
-           split; [rewrite nth_error_app1; [exact Ho | apply nth_error_Some; congruence]|]. repeat split; try assumption.
-           rewrite nth_error_app1; [exact Hsc | apply nth_error_Some; congruence].
-      * cbn [map fst]. constructor; [|exact ND]. intro Hin. apply in_map_iff in Hin as [[k n] [Ek Hin]]. cbn in Ek. subst k.
-        destruct (OW _ n Hin) as [_ [o0 [sc0 [Ho _]]]]. assert (List.length K < List.length K)%nat by (apply nth_error_Some; congruence). lia.
-      * intros k n k' n' o1 o2 H1 H2 Ho1 Ho2 Es.
-        assert (Old : forall k0 n0 o0, In (k0, n0) O -> nth_error (K ++ [o]) k0 = Some o0 -> nth_error K k0 = Some o0 /\ (ko_secret o0 < List.length S)%nat).
-        { intros k0 n0 o0 Hin Hn. destruct (OW k0 n0 Hin) as [Hge [o3 [sc3 [Ho3 [_ [_ [_ [Hsc3 _]]]]]]]].
-          rewrite nth_error_app1 in Hn by (apply nth_error_Some; congruence). split; [exact Hn|]. rewrite Ho3 in Hn. inversion Hn; subst o3.
-          apply nth_error_Some. congruence. }
-        assert (New : forall o0, nth_error (K ++ [o]) (List.length K) = Some o0 -> ko_secret o0 = List.length S).
-        { intros o0 Hn. rewrite nth_error_app2 in Hn by lia. rewrite Nat.sub_diag in Hn. inversion Hn. reflexivity. }
-        destruct H1 as [H1|H1], H2 as [H2|H2].
-        -- inversion H1; inversion H2; congruence.
-        -- inversion H1; subst k n. pose proof (New o1 Ho1). destruct (Old k' n' o2 H2 Ho2) as [_ X]. lia.
-        -- inversion H2; subst k' n'. pose proof (New o2 Ho2). destruct (Old k n o1 H1 Ho1) as [_ X]. lia.
-        -- destruct (Old k n o1 H1 Ho1) as [X1 _]. destruct (Old k' n' o2 H2 Ho2) as [X2 _]. exact (INJ k n k' n' o1 o2 H1 H2 X1 X2 Es).
-      * exact CA.
-      * rewrite !app_length. cbn. split; lia.
-      * intros k o0 Hn Hge. rewrite app_length. cbn. destruct (lt_dec k (List.length K)) as [Lt|Ge].
-        -- rewrite nth_error_app1 in Hn by exact Lt. pose proof (AL k o0 Hn Hge). lia.
-        -- assert (k = List.length K).
-           { assert (k < List.length (K ++ [o]))%nat by (apply nth_error_Some; congruence). rewrite app_length in H. cbn in H. lia. }
-           subst k. rewrite nth_error_app2 in Hn by lia. rewrite Nat.sub_diag in Hn. inversion Hn; subst o0. cbn. lia.
-    + exists o. wsimpl. fold K. split; [|reflexivity]. rewrite nth_error_app2 by lia. rewrite Nat.sub_diag. reflexivity.
+  intros w B. unfold new_crypto_key, bind, secret_new. unfold bind at 1. destruct (next_call_cases w) as [f En]. rewrite En.
+  assert (B1 : Bal w0 O (with_calls (S (w_calls w)) w)) by (eapply Bal_same; [|exact B]; repeat split).
+  destruct f as [f|].
+  - unfold secret_count, gets, bind, emit, upd, fail. cbn. eapply Bal_same; [|exact B1]. repeat split.
+  - unfold secret_alloc, bind, emit, upd, ret, kobj_alloc. cbn [fst snd].
+    apply (Bal_alloc w0 O (with_calls (S (w_calls w)) w) _ m c r B1); reflexivity.
+Qed.
+
+Lemma generate_key_B w0 O c :
+  hoare (Bal w0 O) (generate_key c) (fun k w => Bal w0 ((k, 0) :: O) w /\ created_of w k c) (Bal w0 O).
+Proof.
+  intros w B. unfold generate_key, bind, secret_random. unfold bind at 1. destruct (next_call_cases w) as [f En]. rewrite En.
+  assert (B1 : Bal w0 O (with_calls (S (w_calls w)) w)) by (eapply Bal_same; [|exact B]; repeat split).
+  destruct f as [f|].
+  - unfold secret_count, gets, bind, emit, upd, fail. cbn. eapply Bal_same; [|exact B1]. repeat split.
+  - unfold secret_count, gets, secret_alloc, bind, emit, upd, ret, kobj_alloc. cbn [fst snd].
+    eapply (Bal_alloc w0 O (with_calls (S (w_calls w)) w) _ _ c false B1); reflexivity.
 Qed.
 
 Lemma nth_error_set_nth_other' {A} (l : list A) n m x : n <> m -> nth_error (set_nth n x l) m = nth_error l m.
@@ -185,22 +222,15 @@ Qed.
 Lemma set_nth_set_nth {A} (l : list A) n x y : set_nth n x (set_nth n y l) = set_nth n x l.
 Proof. revert n; induction l as [|a l IH]; intros [|n]; cbn; try reflexivity. f_equal. apply IH. Qed.
 
-(* dropping the only reference destroys the key: its secret is closed and the object leaves the owned set *)
-Lemma cck_close_B w0 O k : hoare (Bal w0 ((k, 1) :: O)) (cck_close k) (fun _ w => Bal w0 O w) (fun _ => False).
+(* CryptoKey.Close of an owned, still open key object: its secret is closed and the object leaves the owned set *)
+Lemma ck_close_B w0 O k n : hoare (Bal w0 ((k, n) :: O)) (ck_close k) (fun _ w => Bal w0 O w) (fun _ => False).
 Proof.
-  intros w B. destruct (own_obj _ _ _ _ _ B) as [o [Ho [Hr Hon]]].
-  unfold cck_close, bind. rewrite (kobj_modify_run k _ w o Ho). rewrite Hr. change (1 - 1 >? 0) with false. cbv iota.
-  pose proof (Bal_modify w0 O w k 1 o (ko_with_refs (fun r => r - 1)) B Ho eq_refl eq_refl) as B1.
-  set (o1 := ko_with_refs (fun r => r - 1) o) in *. set (w1 := with_kobjs (set_nth k o1 (w_kobjs w)) w) in *.
-  assert (Ho1 : nth_error (w_kobjs w1) k = Some o1) by (unfold w1; wsimpl; eapply nth_error_set_nth_same; exact Ho).
-  unfold ck_close, bind. rewrite (kobj_modify_run k _ w1 o1 Ho1).
-  assert (Eon : ko_once o1 = false) by exact Hon. rewrite Eon.
-  pose proof (Bal_modify w0 O w1 k _ o1 (ko_with_once true) B1 Ho1 eq_refl) as _.
-  (* work directly: the final world *)
+  intros w1 B1. destruct (own_obj _ _ _ _ _ B1) as [o1 [Ho1 [Hr Hon]]].
+  unfold ck_close, bind. rewrite (kobj_modify_run k _ w1 o1 Ho1). rewrite Hon.
   pose proof B1 as [OS OO NS OW ND INJ CA [L1 L2] AL].
   destruct (OW k _ (or_introl eq_refl)) as [Hge [o' [sc [Ho' [_ [_ [Hs [Hsc Hcl]]]]]]]]. rewrite Ho1 in Ho'. inversion Ho'; subst o'.
   set (o2 := ko_with_once true o1). set (w2 := with_kobjs (set_nth k o2 (w_kobjs w1)) w1).
-  unfold secret_close, bind, secret_mark_closed. 
+  unfold secret_close, bind, secret_mark_closed.
   assert (Es2 : nth_error (w_secrets w2) (ko_secret o1) = Some sc) by exact Hsc. rewrite Es2. cbv iota beta.
   unfold emit, upd. cbn [snd fst].
   assert (Get : forall k', nth_error (set_nth k o2 (w_kobjs w1)) k' = if Nat.eqb k' k then Some o2 else nth_error (w_kobjs w1) k').
@@ -214,7 +244,7 @@ Proof.
     - apply Nat.eqb_neq in E. apply nth_error_set_nth_other'. congruence. }
   assert (NotIn : forall n', ~ In (k, n') O).
   { intros n' Hin. inversion ND as [|? ? Hni _]; subst. apply Hni. apply in_map_iff. exists (k, n'). split; [reflexivity | exact Hin]. }
-  constructor; wsimpl; fold w1.
+  constructor; wsimpl.
   - intros s' Hlt. rewrite GetS. destruct (Nat.eqb s' sid) eqn:E; [apply Nat.eqb_eq in E; lia | exact (OS s' Hlt)].
   - intros k' Hlt. rewrite Get. destruct (Nat.eqb k' k) eqn:E; [apply Nat.eqb_eq in E; lia | exact (OO k' Hlt)].
   - intros s' sc' Hge' Hn. rewrite GetS in Hn. destruct (Nat.eqb s' sid) eqn:E; [inversion Hn; subst sc'; left; reflexivity|].
@@ -236,6 +266,15 @@ Proof.
   - unfold w2. wsimpl. rewrite !set_nth_length. split; assumption.
   - intros k' o' Hn Hge'. unfold w2 in *. wsimpl. rewrite set_nth_length. rewrite Get in Hn. destruct (Nat.eqb k' k) eqn:E'; [|exact (AL k' o' Hn Hge')].
     inversion Hn; subst o'. exact (AL k o1 Ho1 Hge).
+Qed.
+
+(* dropping the only reference destroys the key *)
+Lemma cck_close_B w0 O k : hoare (Bal w0 ((k, 1) :: O)) (cck_close k) (fun _ w => Bal w0 O w) (fun _ => False).
+Proof.
+  intros w B. destruct (own_obj _ _ _ _ _ B) as [o [Ho [Hr Hon]]].
+  unfold cck_close, bind. rewrite (kobj_modify_run k _ w o Ho). rewrite Hr. change (1 - 1 >? 0) with false. cbv iota.
+  pose proof (Bal_modify w0 O w k 1 o (ko_with_refs (fun r => r - 1)) B Ho eq_refl eq_refl) as B1.
+  exact (ck_close_B w0 O k _ _ B1).
 Qed.
 
 (* ---- the cache-less load paths -------------------------------------------------------------------------------- *)
@@ -402,6 +441,280 @@ Proof.
   - intros w HB. pose proof (cck_close_BS w0 [] ik w HB) as X. destruct (cck_close ik w) as [[er|a] w1]; [contradiction | exact X].
 Qed.
 
+(* ---- the cache-less Encrypt: everything is released, except what known finding C09-J leaks ----------------------- *)
+
+Lemma hoare_Bal {A} w0 O (m : M A) : qL m -> hoare (Bal w0 O) m (fun _ w => Bal w0 O w) (Bal w0 O).
+Proof. intro QL. exact (hoare_qL m (Bal w0 O) (Bal w0 O) QL (stableL_Bal w0 O) (fun _ H => H)). Qed.
+
+Lemma hoare_Bal_res {A} w0 O (m : M A) (phi : A -> world -> Prop) :
+  qL m -> hoare (fun _ => True) m phi (fun _ => True) -> hoare (Bal w0 O) m (fun a w => Bal w0 O w /\ phi a w) (Bal w0 O).
+Proof. intros QL Hr. eapply hoare_weaken; [exact (hoare_conj _ _ _ _ _ _ _ (hoare_Bal w0 O m QL) Hr) | | |]; cbv beta; tauto. Qed.
+
+Lemma system_key_from_ekr_B w0 O r : hoare (Bal w0 O) (system_key_from_ekr r) (fun k w => Bal w0 ((k, 0) :: O) w) (Bal w0 O).
+Proof.
+  unfold system_key_from_ekr. eapply (hoare_bind _ _ (fun _ w => Bal w0 O w)); [exact (hoare_Bal w0 O _ (qL_kms_decrypt _))|].
+  intro bytes. eapply hoare_post; [apply new_crypto_key_B | cbv beta; tauto].
+Qed.
+
+Lemma load_system_key_B w0 O meta : hoare (Bal w0 O) (load_system_key meta) (fun k w => Bal w0 ((k, 0) :: O) w) (Bal w0 O).
+Proof.
+  unfold load_system_key. eapply (hoare_bind _ _ (fun _ w => Bal w0 O w)); [exact (hoare_Bal w0 O _ (qL_m_load _ _))|].
+  intros [r|]; [apply system_key_from_ekr_B | apply hoare_fail; tauto].
+Qed.
+
+Lemma wrap_ret_B w0 O k n : hoare (Bal w0 ((k, n) :: O)) (cck_wrap k;;; ret k) (fun k' w => Bal w0 ((k', 1) :: O) w) (fun _ => False).
+Proof. eapply (hoare_bind _ _ (fun _ w => Bal w0 ((k, 1) :: O) w)); [apply cck_wrap_B|]. intros _. apply hoare_ret. tauto. Qed.
+
+Lemma get_or_load_none_B w0 O rci meta loader :
+  hoare (Bal w0 O) (loader meta) (fun k w => Bal w0 ((k, 0) :: O) w) (Bal w0 O) ->
+  hoare (Bal w0 O) (get_or_load None rci meta loader) (fun k w => Bal w0 ((k, 1) :: O) w) (Bal w0 O).
+Proof.
+  intro HL. unfold get_or_load. eapply (hoare_bind _ _ _); [exact HL|]. intro k.
+  eapply hoare_weaken; [apply (wrap_ret_B w0 O k 0) | | |]; cbv beta; tauto.
+Qed.
+
+(* the owned set with at most one leaked object spliced in behind a given prefix *)
+Definition BalJ (w0 : world) (pre O : owned) (w : world) : Prop := exists L, (List.length L <= 1)%nat /\ Bal w0 (pre ++ L ++ O) w.
+
+Lemma BalJ_of w0 pre O w : Bal w0 (pre ++ O) w -> BalJ w0 pre O w.
+Proof. intro B. exists []. split; [cbn; lia | exact B]. Qed.
+
+(* intermediateKeyFromEKR in general: a parent mismatch makes it look a second system key up and never release it (C09-J) *)
+Lemma intermediate_key_from_ekr_J w0 O e sk r :
+  en_sk e = None ->
+  hoare (Bal w0 ((sk, 1) :: O)) (intermediate_key_from_ekr e sk r)
+        (fun k w => BalJ w0 [(k, 0); (sk, 1)] O w) (BalJ w0 [(sk, 1)] O).
+Proof.
+  intro Esk. unfold intermediate_key_from_ekr.
+  eapply (hoare_bind _ _ (fun _ w => Bal w0 ((sk, 1) :: O) w)).
+  { eapply hoare_weaken; [exact (hoare_Bal w0 ((sk, 1) :: O) _ (qL_kobj_get sk)) | | |]; cbv beta; try tauto. intros w B. apply (BalJ_of w0 [(sk, 1)]). exact B. }
+  intro sko.
+  (* the rest, for an arbitrary owned set behind sk *)
+  assert (Rest : forall O' sk', hoare (Bal w0 O')
+            (skb <- key_bytes sk' ;; ikb <- aead_decrypt (e_key r) skb ;; new_crypto_key (e_created r) (e_revoked r) ikb)
+            (fun k w => Bal w0 ((k, 0) :: O') w) (Bal w0 O')).
+  { intros O' sk'. eapply (hoare_bind _ _ (fun _ w => Bal w0 O' w)); [exact (hoare_Bal w0 O' _ (qL_key_bytes sk'))|]. intro skb.
+    eapply (hoare_bind _ _ (fun _ w => Bal w0 O' w)); [exact (hoare_Bal w0 O' _ (qL_aead_decrypt _ _))|]. intro ikb.
+    eapply hoare_post; [apply new_crypto_key_B | cbv beta; tauto]. }
+  assert (Same : hoare (Bal w0 ((sk, 1) :: O)) (sk' <- ret sk ;; skb <- key_bytes sk' ;; ikb <- aead_decrypt (e_key r) skb ;; new_crypto_key (e_created r) (e_revoked r) ikb)
+                       (fun k w => BalJ w0 [(k, 0); (sk, 1)] O w) (BalJ w0 [(sk, 1)] O)).
+  { eapply (hoare_bind _ _ (fun _ w => Bal w0 ((sk, 1) :: O) w)); [apply hoare_ret; tauto|]. intro sk'.
+    eapply hoare_weaken; [apply (Rest ((sk, 1) :: O) sk') | | |]; cbv beta; try tauto.
+    - intros k w B. apply (BalJ_of w0 [(k, 0); (sk, 1)]). exact B.
+    - intros w B. apply (BalJ_of w0 [(sk, 1)]). exact B. }
+  destruct (e_parent r) as [pm|]; [|exact Same].
+  destruct (ko_created sko =? km_created pm); [exact Same|].
+  (* the mismatch: a second system key, loaded and wrapped, stays behind *)
+  eapply (hoare_bind _ _ (fun sk3 w => Bal w0 ((sk3, 1) :: (sk, 1) :: O) w)).
+  { unfold get_or_load_system_key. rewrite Esk. eapply hoare_weaken; [apply (get_or_load_none_B w0 ((sk, 1) :: O)); apply load_system_key_B | | |]; cbv beta; try tauto.
+    intros w B. apply (BalJ_of w0 [(sk, 1)]). exact B. }
+  intro sk3. eapply hoare_weaken; [apply (Rest ((sk3, 1) :: (sk, 1) :: O) sk3) | | |]; cbv beta; try tauto.
+  - intros k w B. exists [(sk3, 1)]. split; [cbn; lia|]. cbn [app]. eapply Bal_perm; [|exact B].
+    apply Permutation.perm_skip. apply Permutation.perm_swap.
+  - intros w B. exists [(sk3, 1)]. split; [cbn; lia|]. cbn [app]. eapply Bal_perm; [|exact B]. apply Permutation.perm_swap.
+Qed.
+
+Lemma generate_key_now_B w0 O e : hoare (Bal w0 O) (generate_key_now e) (fun k w => Bal w0 ((k, 0) :: O) w) (Bal w0 O).
+Proof.
+  unfold generate_key_now. eapply (hoare_bind _ _ (fun _ w => Bal w0 O w)); [exact (hoare_Bal w0 O _ qL_get_now)|].
+  intro now. eapply hoare_post; [apply generate_key_B | cbv beta; tauto].
+Qed.
+
+Lemma try_B {A} w0 O (m : M A) : qL m -> hoare (Bal w0 O) (try_ m) (fun _ w => Bal w0 O w) (fun _ => False).
+Proof. intro QL. eapply hoare_try; [exact (hoare_Bal w0 O m QL) | |]; cbv beta; tauto. Qed.
+
+Lemma load_latest_or_create_system_key_B w0 O e id :
+  hoare (Bal w0 O) (load_latest_or_create_system_key e id) (fun k w => Bal w0 ((k, 0) :: O) w) (Bal w0 O).
+Proof.
+  unfold load_latest_or_create_system_key.
+  eapply (hoare_bind _ _ (fun _ w => Bal w0 O w)); [exact (hoare_Bal w0 O _ (qL_m_load_latest id))|]. intro r.
+  eapply (hoare_bind _ _ (fun _ w => Bal w0 O w)).
+  { apply hoare_Bal. destruct r as [r|]; [|apply qL_ret]. apply qL_bind; [apply qL_is_envelope_invalid | intro; apply qL_ret]. }
+  intro valid.
+  assert (Create : hoare (Bal w0 O)
+            (sk <- generate_key_now e;; st <- try_ (try_store_system_key e sk);;
+             match st with
+             | inr true => ret sk
+             | inr false => ck_close sk;;; (r2 <- must_load_latest id;; system_key_from_ekr r2)
+             | inl er => ck_close sk;;; fail er
+             end) (fun k w => Bal w0 ((k, 0) :: O) w) (Bal w0 O)).
+  { eapply (hoare_bind _ _ _); [apply generate_key_now_B|]. intro sk.
+    eapply (hoare_bind _ _ (fun _ w => Bal w0 ((sk, 0) :: O) w)).
+    { eapply hoare_weaken; [exact (try_B w0 ((sk, 0) :: O) _ (qL_try_store_system_key e sk)) | | |]; cbv beta; tauto. }
+    intros [er|[|]].
+    - eapply (hoare_bind _ _ (fun _ w => Bal w0 O w)); [eapply hoare_weaken; [apply (ck_close_B w0 O sk 0) | | |]; cbv beta; tauto|].
+      intros _. apply hoare_fail. tauto.
+    - apply hoare_ret. tauto.
+    - eapply (hoare_bind _ _ (fun _ w => Bal w0 O w)); [eapply hoare_weaken; [apply (ck_close_B w0 O sk 0) | | |]; cbv beta; tauto|].
+      intros _. eapply (hoare_bind _ _ (fun _ w => Bal w0 O w)); [exact (hoare_Bal w0 O _ (qL_must_load_latest id))|].
+      intro r2. apply system_key_from_ekr_B. }
+  destruct r as [r|]; [destruct valid|]; [apply system_key_from_ekr_B | exact Create | exact Create].
+Qed.
+
+Lemma BalJ_perm w0 pre pre' O w : Permutation.Permutation pre pre' -> BalJ w0 pre O w -> BalJ w0 pre' O w.
+Proof. intros P [L [Le B]]. exists L. split; [exact Le|]. eapply Bal_perm; [|exact B]. apply Permutation.Permutation_app_tail. exact P. Qed.
+
+(* closing an object that sits somewhere in the prefix *)
+Lemma cck_close_J w0 pre O sk :
+  hoare (BalJ w0 ((sk, 1) :: pre) O) (cck_close sk) (fun _ w => BalJ w0 pre O w) (fun _ => False).
+Proof.
+  intros w [L [Le B]]. cbn [app] in B. pose proof (cck_close_B w0 (pre ++ L ++ O) sk w B) as X.
+  destruct (cck_close sk w) as [[er|a] w1]; [contradiction|]. exists L. split; assumption.
+Qed.
+
+(* the part of createIntermediateKey after the system key is in hand *)
+Lemma create_ik_with_sk_J w0 O e sk :
+  en_sk e = None ->
+  hoare (Bal w0 ((sk, 1) :: O)) (create_ik_with_sk e sk) (fun k w => BalJ w0 [(k, 0); (sk, 1)] O w) (BalJ w0 [(sk, 1)] O).
+Proof.
+  intro Esk. unfold create_ik_with_sk.
+  eapply (hoare_bind _ _ (fun ik w => Bal w0 ((ik, 0) :: (sk, 1) :: O) w)).
+  { eapply hoare_weaken; [apply (generate_key_now_B w0 ((sk, 1) :: O)) | | |]; cbv beta; try tauto. intros w B. exact (BalJ_of w0 [(sk, 1)] O w B). }
+  intro ik.
+  eapply (hoare_bind _ _ (fun _ w => Bal w0 ((ik, 0) :: (sk, 1) :: O) w)).
+  { eapply hoare_weaken; [exact (try_B w0 ((ik, 0) :: (sk, 1) :: O) _ (qL_try_store_intermediate_key e ik sk)) | | |]; cbv beta; tauto. }
+  intros [er|[|]].
+  - eapply (hoare_bind _ _ (fun _ w => Bal w0 ((sk, 1) :: O) w)); [eapply hoare_weaken; [apply (ck_close_B w0 ((sk, 1) :: O) ik 0) | | |]; cbv beta; tauto|].
+    intros _. apply hoare_fail. intros w B. exact (BalJ_of w0 [(sk, 1)] O w B).
+  - apply hoare_ret. intros w B. exact (BalJ_of w0 [(ik, 0); (sk, 1)] O w B).
+  - eapply (hoare_bind _ _ (fun _ w => Bal w0 ((sk, 1) :: O) w)); [eapply hoare_weaken; [apply (ck_close_B w0 ((sk, 1) :: O) ik 0) | | |]; cbv beta; tauto|].
+    intros _. eapply (hoare_bind _ _ (fun _ w => Bal w0 ((sk, 1) :: O) w)).
+    { eapply hoare_weaken; [exact (hoare_Bal w0 ((sk, 1) :: O) _ (qL_must_load_latest (ik_id e))) | | |]; cbv beta; try tauto.
+      intros w B. exact (BalJ_of w0 [(sk, 1)] O w B). }
+    intro r2. apply intermediate_key_from_ekr_J. exact Esk.
+Qed.
+
+Lemma get_or_load_latest_none_B w0 O rci ex id loader :
+  hoare (Bal w0 O) (loader {| km_id := id; km_created := 0 |}) (fun k w => Bal w0 ((k, 0) :: O) w) (Bal w0 O) ->
+  hoare (Bal w0 O) (get_or_load_latest None rci ex id loader) (fun k w => Bal w0 ((k, 1) :: O) w) (Bal w0 O).
+Proof.
+  intro HL. unfold get_or_load_latest. eapply (hoare_bind _ _ _); [exact HL|]. intro k.
+  eapply hoare_weaken; [apply (wrap_ret_B w0 O k 0) | | |]; cbv beta; tauto.
+Qed.
+
+(* createIntermediateKey *)
+Lemma create_intermediate_key_J w0 O e :
+  en_sk e = None ->
+  hoare (Bal w0 O) (create_intermediate_key e) (fun k w => BalJ w0 [(k, 0)] O w) (BalJ w0 [] O).
+Proof.
+  intro Esk. unfold create_intermediate_key. rewrite Esk.
+  eapply (hoare_bind _ _ (fun sk w => Bal w0 ((sk, 1) :: O) w)).
+  { eapply hoare_weaken; [apply (get_or_load_latest_none_B w0 O); apply load_latest_or_create_system_key_B | | |]; cbv beta; try tauto.
+    intros w B. exact (BalJ_of w0 [] O w B). }
+  intro sk.
+  eapply hoare_finally with (Q1 := fun k w => BalJ w0 [(k, 0); (sk, 1)] O w) (E1 := BalJ w0 [(sk, 1)] O).
+  - apply create_ik_with_sk_J. exact Esk.
+  - intro k. eapply hoare_weaken; [apply (cck_close_J w0 [(k, 0)] O sk) | | |]; cbv beta; try tauto.
+    intros w B. eapply BalJ_perm; [|exact B]. apply Permutation.perm_swap.
+  - eapply hoare_weaken; [apply (cck_close_J w0 [] O sk) | | |]; cbv beta; tauto.
+Qed.
+
+Lemma BalS_Bal w0 O w : BalS w0 O w -> Bal w0 O w. Proof. intro H. exact (proj1 H). Qed.
+
+(* getValidIntermediateKey with the parent's own system key in hand *)
+Lemma get_valid_intermediate_key_B w0 O e sk r c' :
+  (forall pm, e_parent r = Some pm -> km_created pm = c') ->
+  hoare (fun w => BalS w0 ((sk, 1) :: O) w /\ created_of w sk c') (get_valid_intermediate_key e sk r)
+        (fun v w => match v with Some ik => BalS w0 ((ik, 0) :: (sk, 1) :: O) w | None => BalS w0 ((sk, 1) :: O) w end)
+        (BalS w0 ((sk, 1) :: O)).
+Proof.
+  intro Ep. unfold get_valid_intermediate_key.
+  set (A := fun w => BalS w0 ((sk, 1) :: O) w /\ created_of w sk c').
+  eapply (hoare_bind _ _ (fun _ w => A w)).
+  { intros w [HB Hc]. pose proof (hoare_BalS w0 _ _ (q0_is_key_invalid sk (p_expire (en_pol e))) (qL_is_key_invalid _ _) w HB) as Y.
+    pose proof (q0_is_key_invalid sk (p_expire (en_pol e)) w) as Q.
+    destruct (is_key_invalid sk (p_expire (en_pol e)) w) as [[er|a] w1]; cbn [snd] in Q.
+    - exact Y.
+    - split; [exact Y | exact (stable_created_of sk c' w w1 (Rq0_Rq _ _ Q) Hc)]. }
+  intros [|]; [apply hoare_ret; unfold A; cbv beta; tauto|].
+  eapply (hoare_bind _ _ (fun x w => match x with inr ik => BalS w0 ((ik, 0) :: (sk, 1) :: O) w | inl _ => BalS w0 ((sk, 1) :: O) w end)).
+  { eapply hoare_try; [exact (intermediate_key_from_ekr_BS w0 O e sk r c' Ep) | |]; cbv beta; tauto. }
+  intros [er|ik]; apply hoare_ret; tauto.
+Qed.
+
+(* loadLatestOrCreateIntermediateKey, first thing in an Encrypt (the metastore is still as it was) *)
+Lemma load_latest_or_create_intermediate_key_J w0 O e id :
+  store_ok (w_store w0) -> en_sk e = None ->
+  hoare (BalS w0 O) (load_latest_or_create_intermediate_key e id) (fun k w => BalJ w0 [(k, 0)] O w) (BalJ w0 [] O).
+Proof.
+  intros SO Esk. unfold load_latest_or_create_intermediate_key.
+  assert (Create : forall (P : world -> Prop), (forall w, P w -> Bal w0 O w) ->
+            hoare P (create_intermediate_key e) (fun k w => BalJ w0 [(k, 0)] O w) (BalJ w0 [] O)).
+  { intros P HP. eapply hoare_pre; [exact (create_intermediate_key_J w0 O e Esk) | exact HP]. }
+  eapply (hoare_bind _ _ (fun _ w => BalS w0 O w)).
+  { eapply hoare_weaken; [exact (hoare_BalS w0 O _ (q0_m_load_latest id) (qL_m_load_latest id)) | | |]; cbv beta; try tauto.
+    intros w B. exact (BalJ_of w0 [] O w (proj1 B)). }
+  intro r.
+  eapply (hoare_bind _ _ (fun _ w => BalS w0 O w)).
+  { eapply hoare_weaken; [apply (hoare_BalS w0 O) | | |]; cbv beta; try tauto.
+    - destruct r as [r|]; [|apply q0_ret]. destruct (e_parent r); [|apply q0_ret]. apply q0_bind; [apply q0_is_envelope_invalid | intro; apply q0_ret].
+    - destruct r as [r|]; [|apply qL_ret]. destruct (e_parent r); [|apply qL_ret]. apply qL_bind; [apply qL_is_envelope_invalid | intro; apply qL_ret].
+    - intros w B. exact (BalJ_of w0 [] O w (proj1 B)). }
+  intro usable.
+  destruct r as [r|]; [|apply Create; exact (BalS_Bal w0 O)].
+  destruct usable; [|apply Create; exact (BalS_Bal w0 O)].
+  destruct (e_parent r) as [pm|] eqn:Ep; [|apply Create; exact (BalS_Bal w0 O)].
+  eapply (hoare_bind _ _ (fun x w => match x with
+                                     | inr sk => BalS w0 ((sk, 1) :: O) w /\ created_of w sk (km_created pm)
+                                     | inl _ => BalS w0 O w end)).
+  { eapply hoare_try with (E1 := BalS w0 O).
+    - unfold get_or_load_system_key. rewrite Esk. apply (get_or_load_none_BS w0 O _ pm load_system_key (fun k w => created_of w k (km_created pm))).
+      + intro k. apply stable_stable0. apply stable_created_of.
+      + apply load_system_key_BS. exact SO.
+    - cbv beta. tauto.
+    - cbv beta. tauto. }
+  intros [er|sk]; [apply Create; exact (BalS_Bal w0 O)|].
+  eapply hoare_finally with (Q1 := fun k w => BalJ w0 [(k, 0); (sk, 1)] O w) (E1 := BalJ w0 [(sk, 1)] O).
+  - eapply (hoare_bind _ _ _).
+    + eapply hoare_weaken; [apply (get_valid_intermediate_key_B w0 O e sk r (km_created pm)) | | |]; cbv beta.
+      * intros pm' Hp. rewrite Ep in Hp. inversion Hp. reflexivity.
+      * intros w X. exact X.
+      * intros a w X. exact X.
+      * intros w B. exact (BalJ_of w0 [(sk, 1)] O w (proj1 B)).
+    + intros [ik|].
+      * apply hoare_ret. intros w B. exact (BalJ_of w0 [(ik, 0); (sk, 1)] O w (proj1 B)).
+      * eapply hoare_weaken; [exact (create_intermediate_key_J w0 ((sk, 1) :: O) e Esk) | | |]; cbv beta.
+        -- intros w B. exact (proj1 B).
+        -- intros k w [L [Le B]]. exists L. split; [exact Le|]. eapply Bal_perm; [|exact B]. cbn [app].
+           apply Permutation.perm_skip. apply Permutation.Permutation_sym. apply Permutation.Permutation_middle.
+        -- intros w [L [Le B]]. exists L. split; [exact Le|]. eapply Bal_perm; [|exact B]. cbn [app].
+           apply Permutation.Permutation_sym. apply Permutation.Permutation_middle.
+  - intro k. eapply hoare_weaken; [apply (cck_close_J w0 [(k, 0)] O sk) | | |]; cbv beta; try tauto.
+    intros w B. eapply BalJ_perm; [|exact B]. apply Permutation.perm_swap.
+  - eapply hoare_weaken; [apply (cck_close_J w0 [] O sk) | | |]; cbv beta; tauto.
+Qed.
+
+(* the part of EncryptPayload after the intermediate key is in hand: the data key's object comes and goes *)
+Lemma encrypt_with_ik_B w0 O e ik payload :
+  hoare (Bal w0 O) (encrypt_with_ik e ik payload) (fun _ w => Bal w0 O w) (Bal w0 O).
+Proof.
+  unfold encrypt_with_ik.
+  eapply (hoare_bind _ _ (fun _ w => Bal w0 O w)); [exact (hoare_Bal w0 O _ qL_get_now)|]. intro now.
+  eapply (hoare_bind _ _ (fun drk w => Bal w0 ((drk, 0) :: O) w)); [eapply hoare_post; [apply generate_key_B | cbv beta; tauto]|]. intro drk.
+  eapply hoare_finally with (Q1 := fun _ w => Bal w0 ((drk, 0) :: O) w) (E1 := Bal w0 ((drk, 0) :: O)).
+  - apply hoare_Bal. qL_go.
+  - intros _. eapply hoare_weaken; [apply (ck_close_B w0 O drk 0) | | |]; cbv beta; tauto.
+  - eapply hoare_weaken; [apply (ck_close_B w0 O drk 0) | | |]; cbv beta; tauto.
+Qed.
+
+(* EncryptPayload with caching disabled *)
+Theorem encrypt_nocache_J w0 e payload :
+  store_ok (w_store w0) -> en_sk e = None -> en_ik e = None ->
+  hoare (BalS w0 []) (encrypt_payload e payload) (fun _ w => BalJ w0 [] [] w) (BalJ w0 [] []).
+Proof.
+  intros SO Esk Eik. unfold encrypt_payload. rewrite Eik. unfold get_or_load_latest.
+  eapply (hoare_bind _ _ (fun ik w => BalJ w0 [(ik, 1)] [] w)).
+  { eapply (hoare_bind _ _ _); [exact (load_latest_or_create_intermediate_key_J w0 [] e _ SO Esk)|]. intro k.
+    intros w [L [Le B]]. cbn [app] in B. pose proof (wrap_ret_B w0 (L ++ []) k 0 w B) as X.
+    destruct ((cck_wrap k;;; ret k) w) as [[er|a] w1]; [contradiction|]. exists L. split; [exact Le | exact X]. }
+  intro ik.
+  eapply hoare_finally with (Q1 := fun _ w => BalJ w0 [(ik, 1)] [] w) (E1 := BalJ w0 [(ik, 1)] []).
+  - intros w [L [Le B]]. pose proof (encrypt_with_ik_B w0 _ e ik payload w B) as X.
+    destruct (encrypt_with_ik e ik payload w) as [[er|a] w1]; (exists L; split; [exact Le | exact X]).
+  - intros _. eapply hoare_weaken; [apply (cck_close_J w0 [] [] ik) | | |]; cbv beta; tauto.
+  - eapply hoare_weaken; [apply (cck_close_J w0 [] [] ik) | | |]; cbv beta; tauto.
+Qed.
+
 Lemma session_env_res s :
   hoare (fun _ => True) (session_env s)
         (fun e w => exists x fa, nth_error (w_sessions w) s = Some x /\ nth_error (w_factories w) (ss_factory x) = Some fa /\
@@ -446,6 +759,39 @@ Proof.
     destruct X as [B _]; exact (Bal_nil_released w0 w1 B).
 Qed.
 
+(* C09, caching disabled, Encrypt at the API: whatever happens - any fault plan, rotation, duplicate fallback - every secret the
+   call allocated is closed when it returns, except at most ONE (the system key that known finding C09-J leaks on a parent
+   mismatch in the duplicate fallback); earlier secrets and key objects are untouched *)
+Theorem encrypt_nocache_releases h s payload faults :
+  store_ok (w_store (h_world h)) ->
+  (forall x fa, nth_error (w_sessions (h_world h)) s = Some x -> nth_error (w_factories (h_world h)) (ss_factory x) = Some fa ->
+                fa_sk fa = None /\ ss_ik x = None) ->
+  let w := h_world h in
+  let w' := h_world (snd (hstep h (HEncrypt s payload faults))) in
+  (forall sid, (sid < List.length (w_secrets w))%nat -> nth_error (w_secrets w') sid = nth_error (w_secrets w) sid) /\
+  (exists leak : list nat, (List.length leak <= 1)%nat /\
+     forall sid sc, (List.length (w_secrets w) <= sid)%nat -> nth_error (w_secrets w') sid = Some sc -> s_closed sc = true \/ In sid leak) /\
+  (forall k, (k < List.length (w_kobjs w))%nat -> nth_error (w_kobjs w') k = nth_error (w_kobjs w) k).
+Proof.
+  intros SO NC w w'. unfold w'. cbn [hstep]. fold w.
+  set (w0 := begin_op faults w).
+  assert (B0 : BalS w0 [] w0) by (split; [apply Bal_init | reflexivity]).
+  assert (SO0 : store_ok (w_store w0)) by exact SO.
+  assert (X : BalJ w0 [] [] (snd ((e <- session_env s;; encrypt_payload e (PPayload payload)) w0))).
+  { unfold bind.
+    pose proof (q0_session_env s w0) as Q0. pose proof (qL_session_env s w0) as QL. pose proof (session_env_res s w0 I) as RS.
+    destruct (session_env s w0) as [[er|e] w1]; cbn [snd] in *.
+    - apply (BalJ_of w0 [] []). exact (Bal_same _ _ _ _ QL (proj1 B0)).
+    - assert (HB : BalS w0 [] w1) by (split; [exact (Bal_same _ _ _ _ QL (proj1 B0)) | rewrite (proj2 Q0); reflexivity]).
+      destruct RS as [x [fa [Hs [Hf [E1 E2]]]]].
+      destruct Q0 as [[_ [_ [_ [S1 [S2 _]]]]] _]. rewrite S1 in Hs. rewrite S2 in Hf.
+      destruct (NC x fa Hs Hf) as [N1 N2].
+      pose proof (encrypt_nocache_J w0 e (PPayload payload) SO0 ltac:(congruence) ltac:(congruence) w1 HB) as Y.
+      destruct (encrypt_payload e (PPayload payload) w1) as [[er|a] w2]; exact Y. }
+  destruct ((e <- session_env s;; encrypt_payload e (PPayload payload)) w0) as [[er|a] w1]; cbn [snd h_world] in *;
+    destruct X as [L [Le B]]; cbn [app] in B; rewrite app_nil_r in B; exact (Bal_small_released w0 L w1 B Le).
+Qed.
+
 End NoCache.
 
 (* over every history of SDK operations, clock changes and revocations *)
@@ -487,3 +833,24 @@ Example nocache_nonvacuous :
 Proof.
   split; [repeat constructor; cbn; try exact I|]. split; [vm_compute; reflexivity|]. split; vm_compute; reflexivity.
 Qed.
+
+Theorem nocache_encrypt_releases_all_but_one svc prod t0 ops s payload faults :
+  Forall (benign svc prod) ops ->
+  let h := snd (hrun (hinit t0) ops) in
+  (forall x fa, nth_error (w_sessions (h_world h)) s = Some x -> nth_error (w_factories (h_world h)) (ss_factory x) = Some fa ->
+                fa_sk fa = None /\ ss_ik x = None) ->
+  let w := h_world h in
+  let w' := h_world (snd (hstep h (HEncrypt s payload faults))) in
+  (forall sid, (sid < List.length (w_secrets w))%nat -> nth_error (w_secrets w') sid = nth_error (w_secrets w) sid) /\
+  (exists leak : list nat, (List.length leak <= 1)%nat /\
+     forall sid sc, (List.length (w_secrets w) <= sid)%nat -> nth_error (w_secrets w') sid = Some sc -> s_closed sc = true \/ In sid leak) /\
+  (forall k, (k < List.length (w_kobjs w))%nat -> nth_error (w_kobjs w') k = nth_error (w_kobjs w) k).
+Proof.
+  intros FB h NC. apply (encrypt_nocache_releases svc prod h s payload faults); [|exact NC].
+  exact (store_well_formed svc prod t0 ops FB).
+Qed.
+
+(* in the ordinary case nothing at all is left: after the history above and one more Encrypt no secret is live *)
+Example nocache_encrypt_leaves_nothing :
+  live_secrets (h_world (snd (hrun (hinit Rotation.t0) (nocache_ops ++ [HEncrypt 0 8 []])))) = [].
+Proof. vm_compute. reflexivity. Qed.
